@@ -247,6 +247,19 @@ case("C02", "optimizer-semi-join-constant-operand-loses-rows", "with the optimiz
      {"outcome": "rows", "rows": [["x"], ["x"]]}, [{"outcome": "rows", "rows": [["x"]]}, {"outcome": "panic", "contains": "all_non_empty_edges_removed"}],
      ["C01", "C09", "C03"])
 
+case("C07", "rollup-dependent-key-not-nulled", "in ROLLUP/CUBE a key that is an expression over another key's column (ROLLUP (k, k % 2)) is not NULL in the grouping sets that leave it out: its value is recomputed from the other key, while GROUPING() of it reports 1 (aggregated away) - the two disagree, and docs/sql/query-syntax/group-by.md says keys absent from a grouping set are NULL",
+     ["CREATE TEMP TABLE t (k INT)", "INSERT INTO t VALUES (0), (2), (1)"],
+     "SELECT k, k % 2 AS z, count(*) FROM t GROUP BY ROLLUP (k, k % 2)",
+     {"outcome": "rows", "rows": [[0, 0, 1], [1, 1, 1], [2, 0, 1], [0, None, 1], [1, None, 1], [2, None, 1], [None, None, 3]]},
+     {"outcome": "rows", "rows": [[0, 0, 1], [1, 1, 1], [2, 0, 1], [0, 0, 1], [1, 1, 1], [2, 0, 1], [None, None, 3]]},
+     ["C01", "C02", "C03"])
+
+for _ops in (["HashJoin/exec"], ["NestedLoopJoin/exec"], ["HashAggregate/exec", "Union/exec"]):
+    F.append({"status": "open", "property": "C15", "id": "limit-exhaustion-hang-in-text-" + "-".join(o.split("/")[0].lower() for o in _ops),
+              "signature": {"kind": "outcome", "class": "deadlock", "deadlock_kind": "stuck_barrier", "parked_ops": _ops, "limit_in_text": True},
+              "what": "a mutated / generated statement containing LIMIT ran into the recorded executor defect (see C04 limit-exhaustion-hang-*): the statement never completes. Statements without LIMIT parked at the same operators are NOT covered by this entry",
+              "example": "SELECT 1 FROM t0 GROUP BY k HAVING count(DISTINCT a) >= 0 UNION ALL SELECT 1 FROM t0 LIMIT 1"})
+
 case("C07", "grouping-function-argument-order", "GROUPING(args) ignores the order of its arguments and mishandles expression keys: the bitmask follows the position of the keys in the GROUP BY list instead of the argument order documented in docs/sql/query-syntax/group-by.md (rightmost argument = least significant bit)",
      ["CREATE TEMP TABLE g (k INT)", "INSERT INTO g VALUES (1)"],
      "SELECT (k % 2) AS z2, grouping((k % 2), k) AS z3 FROM g GROUP BY CUBE (k, (k % 2))",
